@@ -45,16 +45,33 @@ def jobs_for(prop, tier):
     if prop == 'C15':
         for k in ([2] if tier == 'quick' else [0, 1, 2, 3]):
             jobs.append({'kind': 'prune', 'k': k})
-        # re-appearance after expiry = a frame for an address that is not tracked: reported added, fresh record
+        # "not heard from within T": every frame of an aircraft stamps its record with a clock reading taken while the
+        # frame is handled (a re-appearing aircraft is a frame for an untracked address: fresh record, same stamp rule)
         for k in ([1] if tier == 'quick' else [0, 1, 2]):
-            jobs += [dict(j, props=['C15fresh']) for j in frame_jobs(['C12'], k, tier) if j['frames'][0].split('/')[-1].split(':')[0].split('.')[0] in ('AirbornePositionBaroAltitude', 'AircraftIdentification', 'AirborneVelocity', 'NoPosition')]
+            jobs += [j for j in frame_jobs(['C15'], k, tier) if j['frames'][0].startswith(('ADSB/', 'TisB/'))]
     return jobs
 
 
 def replay_violation(v):
-    """Tracker counterexamples carry a z3 model of a symbolic pre-state; the native confirmation replays the frame
-    through the real tracker where the violation is expressible with an empty / single-step history."""
-    return v.get('native_confirmed', True)
+    """Tracker counterexamples are solver models of (pre-state, frame, receiver): the step is replayed on the real
+    crates (checks/step_replay.py) and the verdict re-derived from the native pre/post states.  Roles whose expected
+    value depends on libm / get_position results (uninterpreted in the model) cannot be judged natively: they are
+    reported with `reproduced: not replayable` instead of being dropped."""
+    from checks import step_replay
+    if v.get('step') is None:
+        v['replay_note'] = v.get('step_error', 'no step recorded for this role')
+        return True
+    try:
+        step_replay.build()
+        ok, note = step_replay.judge(v)
+    except Exception as e:      # noqa
+        v['replay_note'] = 'native step replay failed: %r' % (e,)
+        return True
+    v['replay_note'] = note
+    if ok is None:
+        v['replay_note'] = 'not replayable natively: ' + note
+        return True
+    return ok
 
 
 def main(prop, tier, extra_jobs=None, finish=True):
